@@ -224,10 +224,16 @@ def set_components_setting(**kw) -> None:
 class IdSeam:
     """Replaces django_components.util.misc.generate with a counter (per thread prefix)."""
 
+    B62 = "0123456789abcdefghijklmnopqrstuvwxyzABCDEFGHIJKLMNOPQRSTUVWXYZ"
+
     def __init__(self):
         self.count = 0
         self.prefix_by_thread: dict = {}
         self.count_by_thread: dict = {}
+        # ids over the library's real alphabet [0-9a-zA-Z] (upper case and non-hex letters included), still a
+        # deterministic counter: "Zq" + 4 base-62 digits in the main thread, <prefix> + "Q" + 4 digits in scheduled threads
+        # (ID_PATTERN matches both).  "hex" (a00001 ...) is the old, easier-to-read style.
+        self.style = "mixed"
 
     def reset(self, start: int = 0) -> None:
         self.count = start
@@ -238,13 +244,25 @@ class IdSeam:
         pfx = self.prefix_by_thread.get(tid)
         if pfx is None:
             self.count += 1
+            if self.style == "mixed":
+                return "Zq" + self._b62(self.count)
             return "%06x" % (0xA00000 + self.count)
         n = self.count_by_thread.get(tid, 0) + 1
         self.count_by_thread[tid] = n
+        if self.style == "mixed":
+            return pfx + "Q" + self._b62(n)
         return "%s%05x" % (pfx, n)
+
+    def _b62(self, n: int) -> str:
+        n, out = n * 7919, ""
+        for _ in range(4):
+            n, r = divmod(n, 62)
+            out = self.B62[r] + out
+        return out
 
 
 ID_SEAM = IdSeam()
+ID_PATTERN = r"(?:Zq|[b-p]Q)[0-9a-zA-Z]{4}"  # every id the seam hands out in "mixed" style
 
 
 def install_id_seam() -> IdSeam:
